@@ -71,3 +71,8 @@ claim("C15",
       "Decides the structure from which 'in order, exactly once' follows given FIFO channels: a whole-program channel-flow analysis identifies each hop of the MIDI path and shows exactly one receiving function per hop, started once; every relay forwards a value iff one was actually received (ok checked on closable channels) and exactly once; the fan-out touches its output map only under its mutex, delivers each element to every output within one critical section, closes and removes an output in one critical section, releases the lock on every realisable path; channels are closed only after their senders are done (Manager.Run passes wg.Wait over all device goroutines). Known finding: the fan-out sends while holding the mutex that DespawnOutput needs, so removal of a device that stopped reading can block forever. Schedules, fairness, the ALSA driver and draining at shutdown are NOT decided.",
       COMMON_NOTE + " Go channels are FIFO and deliver each value once.",
       "whole-program channel-flow unification (Steensgaard) + path-effect enumeration of relay loops + must-lockset analysis of the fan-out (with a positive/negative control)")
+
+claim("C19",
+      "Decides the structure of the watcher: it observes exactly the four directories the loader reads (constant sets compared), a notification is sent iff the event is a write and the lower-cased file name has the suffix the loader filters on (sibling agreement), the hand-off is a select that also observes ctx.Done(), close(change) is deferred first in the only sender, a goroutine closes the watcher on cancellation, the event loop ranges over the watcher's channel; on the consumer side every case of the manager's select cancels the per-cycle device context and the outer loop reloads the configurations. Kernel notification timing is NOT decided.",
+      COMMON_NOTE + " fsnotify and inotify behaviour are trusted.",
+      "constant-set comparison between sibling tables + dominating-guard rule at the notification send + channel-flow (single sender/closer) + select-shape rules")
